@@ -17,7 +17,7 @@ import (
 func (f *FS) Clone() *FS {
 	f.mu.Lock()
 	defer f.mu.Unlock()
-	c := &FS{cwd: "/", Umask: f.Umask, Now: f.Now, nextIno: f.nextIno, tempSeq: f.tempSeq}
+	c := &FS{cwd: "/", Umask: f.Umask, Now: f.Now, nextIno: f.nextIno, tempSeq: f.tempSeq, mounts: append([]string(nil), f.mounts...)}
 	seen := map[*node]*node{}
 	var cp func(n, parent *node) *node
 	cp = func(n, parent *node) *node {
